@@ -38,7 +38,7 @@ _hoh = z3.Function('host_of_hwp', z3.StringSort(), z3.StringSort())
 SPECFUNS['host_of_hwp'] = lambda ex, st, s_: VStr(_hoh(s_.term))
 Assumed('wpull/url.py', 'URLInfo.hostname_with_port', {'self': TObj('URLInfo')}, name='URLInfo.hostname_with_port@call', ret=TStr(), is_property=True,
         ensures=['result == hostname_with_port(self)', 'host_of_hwp(result) == (self.hostname if self.hostname is not None else "")'],
-        raises={'AssertionError': []}, note='call-site view; body verified under C10/C11/C16 (specs/url.py: host, bracketed IPv6, port only if non-default). ASSUMED LEMMA: '
+        raises={}, note='call-site view (no exception for a URLInfo produced by URLInfo.parse: verified under C11 with the well-formedness precondition); body verified under C10/C11/C16 (specs/url.py: host, bracketed IPv6, port only if non-default). ASSUMED LEMMA: '
         'the host-and-port text determines the host name (a host name has no ":" unless it is a bracketed IPv6 literal) -- exercised by bounded/c16_wire.py')
 Assumed(W, 'WebSession._extract_cookies', dict(S, response=TObj('HTTPResponse')), raises={}, note='cookie jar: http.cookiejar (assumed)')
 Assumed(W, 'WebSession._add_cookies', dict(S, request=TObj('HTTPRequest')), modifies=['request.fields.map', 'request.fields.count'], raises={},
